@@ -33,7 +33,10 @@ Token(id, i, u, a) == [id |-> id, inst |-> i, epoch |-> epoch[i], user |-> u, ad
 Kinds == {"valid", "bitflip-nonce", "bitflip-body", "bitflip-tag", "truncate", "extend", "textmut",
           "other-instance", "splice-nonce-of-other"}
 \* candidates that need no token
-FreeKinds == {"garbage", "empty", "own-key-malformed-plaintext", "own-key-future", "own-key-wellformed"}
+FreeKinds == {"garbage", "empty", "own-key-malformed-plaintext", "own-key-future", "own-key-wellformed",
+              \* an authentic plaintext whose time stamp is astronomically far from now in either direction - including the
+              \* values at which an age computed in nanoseconds (or milli- / microseconds) wraps around a 64-bit integer
+              "own-key-extreme-time"}
 
 Live(t, i) == /\ t \in issued /\ t.inst = i /\ t.epoch = epoch[i] /\ t.user \notin ColonUsers
               /\ now >= t.ts /\ now - t.ts <= Lifetime
